@@ -72,7 +72,7 @@ void bn_make(bn_t a, size_t digits) {
 	}
 
 	if (a->dp == NULL) {
-		free((void *)a);
+		/* The structure belongs to the caller, whose bn_free() releases it. */
 		RLC_THROW(ERR_NO_MEMORY);
 	}
 #else
